@@ -263,16 +263,39 @@ def composite(U, rep, tier):
 
 
 def create_order(U, rep):
+  """envs.create builds AutoReset(Vmap(Episode(env))) -- read off the OBJECT it returns when create() is interpreted with a
+  scripted environment in the registry (not off the shape of its source), for every combination of its switches."""
   f = U.func('brax.envs.create')
-  order = []
-  for n in own_nodes(f.node):
-    if isinstance(n, ast.Assign) and isinstance(n.value, ast.Call):
-      d = dotted(n.value.func)
-      if d and d[-1].endswith('Wrapper'):
-        order.append((n.lineno, d[-1]))
-  names = [x for _, x in sorted(order)]
-  rep.check(names == ['EpisodeWrapper', 'VmapWrapper', 'AutoResetWrapper'], 'R15.4', 'envs.create wrapper order',
-            'envs.create applies %s, expected Episode -> Vmap -> AutoReset' % names, where=f.where())
+  I = new_interp(U.repo)
+  S = Script(I)
+  base_lookup = I.lookup
+
+  def lookup(name, env, mod):
+    # the registry / factory the function consults: any way of obtaining the environment yields the scripted one
+    if mod == 'brax.envs' and name == '_envs':
+      class Reg(dict):
+        def __missing__(self, k):
+          return ('prim', 'ctor', lambda **kw: S.env())
+      return Reg()
+    if mod == 'brax.envs' and name == 'get_environment':
+      return ('prim', 'get_environment', lambda *a, **kw: S.env())
+    return base_lookup(name, env, mod)
+  I.lookup = lookup
+  L = sym('L')
+  for kw, want in (({'episode_length': L, 'action_repeat': 2, 'auto_reset': True, 'batch_size': 3}, ['AutoResetWrapper', 'VmapWrapper', 'EpisodeWrapper']),
+                   ({'episode_length': L, 'action_repeat': 1, 'auto_reset': True, 'batch_size': None}, ['AutoResetWrapper', 'EpisodeWrapper']),
+                   ({'episode_length': L, 'action_repeat': 1, 'auto_reset': False, 'batch_size': 3}, ['VmapWrapper', 'EpisodeWrapper']),
+                   ({'episode_length': None, 'action_repeat': 1, 'auto_reset': True, 'batch_size': None}, ['AutoResetWrapper'])):
+    w = I.apply(fn('brax.envs', 'create'), ['scripted'], kw)
+    chain = []
+    x = w
+    while isinstance(x, Struct) and 'env' in x.f:
+      chain.append(x.cls)
+      x = x.f['env']
+    tag = ', '.join('%s=%s' % (k, 'L' if k == 'episode_length' and v is not None else v) for k, v in sorted(kw.items()))
+    rep.check(chain == want, 'R15.4', 'envs.create wrapper order (%s)' % tag,
+              'envs.create(%s) builds %s around the environment, expected %s (outermost first)' % (tag, chain, want), where=f.where(),
+              construct='the object returned by create() with a scripted environment in the registry')
 
 
 def acting(U, rep, tier):
